@@ -29,8 +29,8 @@ MaxG == 400
 MaxL == 4
 
 VARIABLES l, cfgSem, nAds, pending, asyncH, syncH, semCnt, latest, reported, took, cur, inEv, dlist, expect, regFlight, rmFlight,
-          closeRet, closing, errEvents, owe, everErr, xcall, distExited, cfgSeg, users, hexists
-vars == <<l, cfgSem, nAds, pending, asyncH, syncH, semCnt, latest, reported, took, cur, inEv, dlist, expect, regFlight, rmFlight, closeRet, closing, errEvents, owe, everErr, xcall, distExited, cfgSeg, users, hexists>>
+          closeRet, closing, errEvents, owe, everErr, xcall, distExited, cfgSeg, users, hexists, oweX
+vars == <<l, cfgSem, nAds, pending, asyncH, syncH, semCnt, latest, reported, took, cur, inEv, dlist, expect, regFlight, rmFlight, closeRet, closing, errEvents, owe, everErr, xcall, distExited, cfgSeg, users, hexists, oweX>>
 
 Ev == Trace[l]
 ErrOf == "err" \in DOMAIN Ev /\ Ev.err
@@ -40,70 +40,76 @@ Fresh == /\ pending' = ZeroP /\ asyncH' = ZeroP /\ syncH' = ZeroP /\ semCnt' = 0
          /\ reported' = [p \in 1..MaxP |-> <<>>] /\ took' = [g \in 1..MaxG |-> 0] /\ cur' = [g \in 1..MaxG |-> <<>>]
          /\ inEv' = <<>> /\ dlist' = <<>> /\ expect' = [k \in 1..MaxL |-> <<>>] /\ regFlight' = 0 /\ rmFlight' = 0
          /\ closeRet' = FALSE /\ closing' = FALSE /\ errEvents' = {} /\ owe' = {} /\ everErr' = FALSE /\ xcall' = [g \in 1..MaxG |-> 0] /\ distExited' = FALSE
-         /\ users' = ZeroP /\ hexists' = [p \in 1..MaxP |-> FALSE]
+         /\ users' = ZeroP /\ hexists' = [p \in 1..MaxP |-> FALSE] /\ oweX' = {}
 
 Init == /\ l = 1 /\ cfgSem = 0 /\ nAds = 0 /\ pending = ZeroP /\ asyncH = ZeroP /\ syncH = ZeroP /\ semCnt = 0 /\ latest = ZeroP
         /\ reported = [p \in 1..MaxP |-> <<>>] /\ took = [g \in 1..MaxG |-> 0] /\ cur = [g \in 1..MaxG |-> <<>>]
         /\ inEv = <<>> /\ dlist = <<>> /\ expect = [k \in 1..MaxL |-> <<>>] /\ regFlight = 0 /\ rmFlight = 0 /\ closeRet = FALSE /\ closing = FALSE /\ errEvents = {} /\ owe = {} /\ everErr = FALSE /\ xcall = [g \in 1..MaxG |-> 0] /\ distExited = FALSE /\ cfgSeg = 0
-        /\ users = ZeroP /\ hexists = [p \in 1..MaxP |-> FALSE]
+        /\ users = ZeroP /\ hexists = [p \in 1..MaxP |-> FALSE] /\ oweX = {}
 
 Keep(vs) == UNCHANGED vs
 Reset == Is("reset") /\ cfgSem' = Ev.n /\ nAds' = Ev.c /\ cfgSeg' = Ev.g /\ Fresh       \* g: the segment depth limit of this run (0: none)
 
 (* events without a state change *)
-Skips == {"w.next", "i.tick", "d.select", "g.entry", "h.prelock", "env.xcancel", "env.announce.ret", "env.explicit", "env.explicit.ret",
-          "e.enter", "e.synced", "l.preadd", "l.added", "l.prerm", "env.cancel.ret", "env.close", "c.expclosed",
+Skips == {"w.next", "i.tick", "d.select", "g.entry", "h.prelock", "env.xcancel", "env.announce.ret", "env.explicit",
+          "e.enter", "l.preadd", "l.added", "l.prerm", "env.cancel.ret", "env.close", "c.expclosed",
           "c.expdone", "c.watchdone", "c.asyncdone", "c.inclosed", "final.end"}
 Skip == /\ l <= Len(Trace) /\ Ev.ev \in Skips /\ l' = l + 1
-        /\ UNCHANGED <<cfgSem, nAds, pending, asyncH, syncH, semCnt, latest, reported, took, cur, inEv, dlist, expect, regFlight, rmFlight, closeRet, closing, errEvents, owe, everErr, xcall, distExited, cfgSeg, users, hexists>>
+        /\ UNCHANGED <<cfgSem, nAds, pending, asyncH, syncH, semCnt, latest, reported, took, cur, inEv, dlist, expect, regFlight, rmFlight, closeRet, closing, errEvents, owe, everErr, xcall, distExited, cfgSeg, users, hexists, oweX>>
 
 U1 == <<cfgSem, nAds>>
 
 (* an announcement of (p, c): an earlier failure for the same CID no longer excuses a missing sync -- the failed sync
    un-cached the CID, so this announcement must be acted on (C04: a failed sync does not impair later ones)          *)
 EnvAnnounce == /\ Is("env.announce") /\ errEvents' = errEvents \ {<<Ev.p, Ev.c>>}
-               /\ UNCHANGED <<cfgSem, nAds, pending, asyncH, syncH, semCnt, latest, reported, took, cur, inEv, dlist, expect, regFlight, rmFlight, closeRet, closing, owe, everErr, xcall, distExited, cfgSeg, users, hexists>>
+               /\ UNCHANGED <<cfgSem, nAds, pending, asyncH, syncH, semCnt, latest, reported, took, cur, inEv, dlist, expect, regFlight, rmFlight, closeRet, closing, owe, everErr, xcall, distExited, cfgSeg, users, hexists, oweX>>
 
 (* ---- announcement hand-off (C08: coalescing, at most one pending) ---- *)
 SwapFirst == /\ Is("w.swap.first") /\ pending[Ev.p] = 0 /\ pending' = [pending EXCEPT ![Ev.p] = Ev.c]
-             /\ UNCHANGED <<cfgSem, nAds, asyncH, syncH, semCnt, latest, reported, took, cur, inEv, dlist, expect, regFlight, rmFlight, closeRet, closing, errEvents, owe, everErr, xcall, distExited, cfgSeg, users, hexists>>
+             /\ UNCHANGED <<cfgSem, nAds, asyncH, syncH, semCnt, latest, reported, took, cur, inEv, dlist, expect, regFlight, rmFlight, closeRet, closing, errEvents, owe, everErr, xcall, distExited, cfgSeg, users, hexists, oweX>>
 SwapReplaced == /\ Is("w.swap.replaced") /\ pending[Ev.p] # 0 /\ pending' = [pending EXCEPT ![Ev.p] = Ev.c]
-                /\ UNCHANGED <<cfgSem, nAds, asyncH, syncH, semCnt, latest, reported, took, cur, inEv, dlist, expect, regFlight, rmFlight, closeRet, closing, errEvents, owe, everErr, xcall, distExited, cfgSeg, users, hexists>>
+                /\ UNCHANGED <<cfgSem, nAds, asyncH, syncH, semCnt, latest, reported, took, cur, inEv, dlist, expect, regFlight, rmFlight, closeRet, closing, errEvents, owe, everErr, xcall, distExited, cfgSeg, users, hexists, oweX>>
 GLocked == /\ Is("g.locked") /\ asyncH[Ev.p] = 0 /\ users[Ev.p] > 0 /\ asyncH' = [asyncH EXCEPT ![Ev.p] = Ev.g]
-           /\ UNCHANGED <<cfgSem, nAds, pending, syncH, semCnt, latest, reported, took, cur, inEv, dlist, expect, regFlight, rmFlight, closeRet, closing, errEvents, owe, everErr, xcall, distExited, cfgSeg, users, hexists>>
+           /\ UNCHANGED <<cfgSem, nAds, pending, syncH, semCnt, latest, reported, took, cur, inEv, dlist, expect, regFlight, rmFlight, closeRet, closing, errEvents, owe, everErr, xcall, distExited, cfgSeg, users, hexists, oweX>>
 (* C08: no more announce-triggered syncs at once than the configured maximum *)
 GSem == /\ Is("g.sem") /\ asyncH[Ev.p] = Ev.g
         /\ (cfgSem > 0 => semCnt < cfgSem \/ closing)
         /\ semCnt' = semCnt + 1
-        /\ UNCHANGED <<cfgSem, nAds, pending, asyncH, syncH, latest, reported, took, cur, inEv, dlist, expect, regFlight, rmFlight, closeRet, closing, errEvents, owe, everErr, xcall, distExited, cfgSeg, users, hexists>>
+        /\ UNCHANGED <<cfgSem, nAds, pending, asyncH, syncH, latest, reported, took, cur, inEv, dlist, expect, regFlight, rmFlight, closeRet, closing, errEvents, owe, everErr, xcall, distExited, cfgSeg, users, hexists, oweX>>
 (* the message acted on is the last one swapped in *)
 GTook == /\ Is("g.took") /\ asyncH[Ev.p] = Ev.g /\ pending[Ev.p] = Ev.c /\ Ev.c # 0
          /\ pending' = [pending EXCEPT ![Ev.p] = 0] /\ took' = [took EXCEPT ![Ev.g] = Ev.c]
-         /\ UNCHANGED <<cfgSem, nAds, asyncH, syncH, semCnt, latest, reported, cur, inEv, dlist, expect, regFlight, rmFlight, closeRet, closing, errEvents, owe, everErr, xcall, distExited, cfgSeg, users, hexists>>
+         /\ UNCHANGED <<cfgSem, nAds, asyncH, syncH, semCnt, latest, reported, cur, inEv, dlist, expect, regFlight, rmFlight, closeRet, closing, errEvents, owe, everErr, xcall, distExited, cfgSeg, users, hexists, oweX>>
 (* C04 / C14: an announce-triggered sync that ran (took the publisher's sync lock) has sent its notification, success or error,
    before its goroutine ends                                                                                               *)
 GExit == /\ Is("g.exit") /\ asyncH[Ev.p] = Ev.g /\ syncH[Ev.p] # Ev.g /\ Ev.g \notin owe
          /\ asyncH' = [asyncH EXCEPT ![Ev.p] = 0] /\ semCnt' = semCnt - 1
-         /\ UNCHANGED <<cfgSem, nAds, pending, syncH, latest, reported, took, cur, inEv, dlist, expect, regFlight, rmFlight, closeRet, closing, errEvents, owe, everErr, xcall, distExited, cfgSeg, users, hexists>>
+         /\ UNCHANGED <<cfgSem, nAds, pending, syncH, latest, reported, took, cur, inEv, dlist, expect, regFlight, rmFlight, closeRet, closing, errEvents, owe, everErr, xcall, distExited, cfgSeg, users, hexists, oweX>>
 
 (* ---- one sync at a time per publisher (C08) ---- *)
 HLocked == /\ Is("h.locked") /\ syncH[Ev.p] = 0 /\ users[Ev.p] > 0 /\ ~closeRet
            /\ syncH' = [syncH EXCEPT ![Ev.p] = Ev.g] /\ cur' = [cur EXCEPT ![Ev.g] = <<>>]
            /\ owe' = IF asyncH[Ev.p] = Ev.g THEN owe \cup {Ev.g} ELSE owe
-           /\ UNCHANGED <<cfgSem, nAds, pending, asyncH, semCnt, latest, reported, took, inEv, dlist, expect, regFlight, rmFlight, closeRet, closing, errEvents, everErr, xcall, distExited, cfgSeg, users, hexists>>
+           /\ UNCHANGED <<cfgSem, nAds, pending, asyncH, semCnt, latest, reported, took, inEv, dlist, expect, regFlight, rmFlight, closeRet, closing, errEvents, everErr, xcall, distExited, cfgSeg, users, hexists, oweX>>
 (* block-hook calls belong to the sync that holds the publisher's lock; none after Close returned (C15) *)
 XStart == /\ Is("env.explicit.start") /\ xcall' = [xcall EXCEPT ![Ev.g] = Ev.n]
-          /\ UNCHANGED <<cfgSem, nAds, pending, asyncH, syncH, semCnt, latest, reported, took, cur, inEv, dlist, expect, regFlight, rmFlight, closeRet, closing, errEvents, owe, everErr, distExited, cfgSeg, users, hexists>>
+          /\ UNCHANGED <<cfgSem, nAds, pending, asyncH, syncH, semCnt, latest, reported, took, cur, inEv, dlist, expect, regFlight, rmFlight, closeRet, closing, errEvents, owe, everErr, distExited, cfgSeg, users, hexists, oweX>>
 (* ... and go to the hook of that very sync: an explicit sync's own (scoped) hook, numbered n, is called by the goroutine of
    explicit sync n and by no other; syncs without one use the subscriber's hook (n = 0)                                   *)
 Hook == /\ Is("hook") /\ syncH[Ev.p] = Ev.g /\ ~closeRet /\ Ev.n = xcall[Ev.g]
         /\ cur' = [cur EXCEPT ![Ev.g] = Append(@, Ev.c)] /\ reported' = [reported EXCEPT ![Ev.p] = Append(@, Ev.c)]
-        /\ UNCHANGED <<cfgSem, nAds, pending, asyncH, syncH, semCnt, latest, took, inEv, dlist, expect, regFlight, rmFlight, closeRet, closing, errEvents, owe, everErr, xcall, distExited, cfgSeg, users, hexists>>
+        /\ UNCHANGED <<cfgSem, nAds, pending, asyncH, syncH, semCnt, latest, took, inEv, dlist, expect, regFlight, rmFlight, closeRet, closing, errEvents, owe, everErr, xcall, distExited, cfgSeg, users, hexists, oweX>>
 HUnlock == /\ Is("h.unlock") /\ syncH[Ev.p] = Ev.g /\ syncH' = [syncH EXCEPT ![Ev.p] = 0]
-           /\ UNCHANGED <<cfgSem, nAds, pending, asyncH, semCnt, latest, reported, took, cur, inEv, dlist, expect, regFlight, rmFlight, closeRet, closing, errEvents, owe, everErr, xcall, distExited, cfgSeg, users, hexists>>
+           /\ UNCHANGED <<cfgSem, nAds, pending, asyncH, semCnt, latest, reported, took, cur, inEv, dlist, expect, regFlight, rmFlight, closeRet, closing, errEvents, owe, everErr, xcall, distExited, cfgSeg, users, hexists, oweX>>
 
+(* C14: an explicit sync of a queried head that completed (e.synced) records the head as latest and sends its notification
+   before it returns -- also when the head is the one recorded already (a resync)                                       *)
+ESynced == /\ Is("e.synced") /\ oweX' = oweX \cup {Ev.g}
+           /\ UNCHANGED <<cfgSem, nAds, pending, asyncH, syncH, semCnt, latest, reported, took, cur, inEv, dlist, expect, regFlight, rmFlight, closeRet, closing, errEvents, owe, everErr, xcall, distExited, cfgSeg, users, hexists>>
+XRet == /\ Is("env.explicit.ret") /\ (~ErrOf => Ev.g \notin oweX) /\ oweX' = oweX \ {Ev.g}
+        /\ UNCHANGED <<cfgSem, nAds, pending, asyncH, syncH, semCnt, latest, reported, took, cur, inEv, dlist, expect, regFlight, rmFlight, closeRet, closing, errEvents, owe, everErr, xcall, distExited, cfgSeg, users, hexists>>
 EHead == /\ Is("e.head") /\ took' = [took EXCEPT ![Ev.g] = Ev.c]
-         /\ UNCHANGED <<cfgSem, nAds, pending, asyncH, syncH, semCnt, latest, reported, cur, inEv, dlist, expect, regFlight, rmFlight, closeRet, closing, errEvents, owe, everErr, xcall, distExited, cfgSeg, users, hexists>>
+         /\ UNCHANGED <<cfgSem, nAds, pending, asyncH, syncH, semCnt, latest, reported, cur, inEv, dlist, expect, regFlight, rmFlight, closeRet, closing, errEvents, owe, everErr, xcall, distExited, cfgSeg, users, hexists, oweX>>
 
 (* ---- recording and notification (C14: one notification per completed sync, latest first) ---- *)
 (* sendSyncFinishedEvent: latest is set and then the notification is sent; the hook sits between the two,
@@ -112,14 +118,14 @@ EHead == /\ Is("e.head") /\ took' = [took EXCEPT ![Ev.g] = Ev.c]
 Push(e) == inEv' = Append(inEv, e)
 LatestSet == /\ Is("s.latestset") /\ took[Ev.g] = Ev.c /\ syncH[Ev.p] # Ev.g
              /\ latest' = [latest EXCEPT ![Ev.p] = Ev.c]
-             /\ Push([p |-> Ev.p, c |-> Ev.c, count |-> Len(cur[Ev.g]), err |-> 0]) /\ owe' = owe \ {Ev.g}
+             /\ Push([p |-> Ev.p, c |-> Ev.c, count |-> Len(cur[Ev.g]), err |-> 0]) /\ owe' = owe \ {Ev.g} /\ oweX' = oweX \ {Ev.g}
              /\ UNCHANGED <<cfgSem, nAds, pending, asyncH, syncH, semCnt, reported, took, cur, dlist, expect, regFlight, rmFlight, closeRet, closing, errEvents, everErr, xcall, distExited, cfgSeg, users, hexists>>
 Recorded == /\ (Is("g.recorded") \/ Is("e.recorded")) /\ (took[Ev.g] = Ev.c \/ Ev.ev = "e.recorded")
-            /\ UNCHANGED <<cfgSem, nAds, pending, asyncH, syncH, semCnt, latest, reported, took, cur, inEv, dlist, expect, regFlight, rmFlight, closeRet, closing, errEvents, owe, everErr, xcall, distExited, cfgSeg, users, hexists>>
+            /\ UNCHANGED <<cfgSem, nAds, pending, asyncH, syncH, semCnt, latest, reported, took, cur, inEv, dlist, expect, regFlight, rmFlight, closeRet, closing, errEvents, owe, everErr, xcall, distExited, cfgSeg, users, hexists, oweX>>
 Failed == /\ Is("g.failed") /\ took[Ev.g] = Ev.c
           /\ Push([p |-> Ev.p, c |-> Ev.c, count |-> 0, err |-> 1]) /\ errEvents' = errEvents \cup {<<Ev.p, Ev.c>>}
           /\ owe' = owe \ {Ev.g} /\ everErr' = TRUE
-          /\ UNCHANGED <<cfgSem, nAds, pending, asyncH, syncH, semCnt, latest, reported, took, cur, dlist, expect, regFlight, rmFlight, closeRet, closing, xcall, distExited, cfgSeg, users, hexists>>
+          /\ UNCHANGED <<cfgSem, nAds, pending, asyncH, syncH, semCnt, latest, reported, took, cur, dlist, expect, regFlight, rmFlight, closeRet, closing, xcall, distExited, cfgSeg, users, hexists, oweX>>
 (* the distributor takes the oldest notification and hands it to every listener in its list *)
 (* Notifications of different publishers may reach the distributor in either order (their senders are
    parked between setting latest and sending); per publisher the order of completion is kept.        *)
@@ -133,32 +139,32 @@ DEvent == /\ Is("d.event") /\ ~closeRet
              /\ inEv' = SubSeq(inEv, 1, i - 1) \o SubSeq(inEv, i + 1, Len(inEv))
              /\ expect' = [k \in 1..MaxL |-> IF \E x \in 1..Len(dlist) : dlist[x] = k
                                              THEN expect[k] \o <<e.p, e.c, e.count, e.err>> ELSE expect[k]]
-          /\ UNCHANGED <<cfgSem, nAds, pending, asyncH, syncH, semCnt, latest, reported, took, cur, dlist, regFlight, rmFlight, closeRet, closing, errEvents, owe, everErr, xcall, distExited, cfgSeg, users, hexists>>
+          /\ UNCHANGED <<cfgSem, nAds, pending, asyncH, syncH, semCnt, latest, reported, took, cur, dlist, regFlight, rmFlight, closeRet, closing, errEvents, owe, everErr, xcall, distExited, cfgSeg, users, hexists, oweX>>
 EnvReg == /\ Is("env.reg") /\ regFlight = 0 /\ regFlight' = Ev.n
-          /\ UNCHANGED <<cfgSem, nAds, pending, asyncH, syncH, semCnt, latest, reported, took, cur, inEv, dlist, expect, rmFlight, closeRet, closing, errEvents, owe, everErr, xcall, distExited, cfgSeg, users, hexists>>
+          /\ UNCHANGED <<cfgSem, nAds, pending, asyncH, syncH, semCnt, latest, reported, took, cur, inEv, dlist, expect, rmFlight, closeRet, closing, errEvents, owe, everErr, xcall, distExited, cfgSeg, users, hexists, oweX>>
 DAdd == /\ Is("d.add") /\ regFlight # 0 /\ dlist' = Append(dlist, regFlight) /\ regFlight' = 0
-        /\ UNCHANGED <<cfgSem, nAds, pending, asyncH, syncH, semCnt, latest, reported, took, cur, inEv, expect, rmFlight, closeRet, closing, errEvents, owe, everErr, xcall, distExited, cfgSeg, users, hexists>>
+        /\ UNCHANGED <<cfgSem, nAds, pending, asyncH, syncH, semCnt, latest, reported, took, cur, inEv, expect, rmFlight, closeRet, closing, errEvents, owe, everErr, xcall, distExited, cfgSeg, users, hexists, oweX>>
 (* the distributor has handed out everything and closed the listeners' channels *)
 DExit == /\ Is("d.exit") /\ distExited' = TRUE
-         /\ UNCHANGED <<cfgSem, nAds, pending, asyncH, syncH, semCnt, latest, reported, took, cur, inEv, dlist, expect, regFlight, rmFlight, closeRet, closing, errEvents, owe, everErr, xcall, cfgSeg, users, hexists>>
+         /\ UNCHANGED <<cfgSem, nAds, pending, asyncH, syncH, semCnt, latest, reported, took, cur, inEv, dlist, expect, regFlight, rmFlight, closeRet, closing, errEvents, owe, everErr, xcall, cfgSeg, users, hexists, oweX>>
 (* a registration returns: with a live channel once the distributor has added it, or -- only when the distributor has gone --
    with a channel that is already closed (C14: a listener registered before a sync finished receives its notification)  *)
 EnvRegRet == /\ Is("env.reg.ret")
              /\ IF regFlight # 0 THEN distExited /\ regFlight' = 0 ELSE UNCHANGED regFlight      \* never added: refused
-             /\ UNCHANGED <<cfgSem, nAds, pending, asyncH, syncH, semCnt, latest, reported, took, cur, inEv, dlist, expect, rmFlight, closeRet, closing, errEvents, owe, everErr, xcall, distExited, cfgSeg, users, hexists>>
+             /\ UNCHANGED <<cfgSem, nAds, pending, asyncH, syncH, semCnt, latest, reported, took, cur, inEv, dlist, expect, rmFlight, closeRet, closing, errEvents, owe, everErr, xcall, distExited, cfgSeg, users, hexists, oweX>>
 EnvCancel == /\ Is("env.cancel") /\ rmFlight' = Ev.n
-             /\ UNCHANGED <<cfgSem, nAds, pending, asyncH, syncH, semCnt, latest, reported, took, cur, inEv, dlist, expect, regFlight, closeRet, closing, errEvents, owe, everErr, xcall, distExited, cfgSeg, users, hexists>>
+             /\ UNCHANGED <<cfgSem, nAds, pending, asyncH, syncH, semCnt, latest, reported, took, cur, inEv, dlist, expect, regFlight, closeRet, closing, errEvents, owe, everErr, xcall, distExited, cfgSeg, users, hexists, oweX>>
 DRm == /\ Is("d.rm") /\ rmFlight # 0 /\ dlist' = SelectSeq(dlist, LAMBDA k : k # rmFlight) /\ rmFlight' = 0
-       /\ UNCHANGED <<cfgSem, nAds, pending, asyncH, syncH, semCnt, latest, reported, took, cur, inEv, expect, regFlight, closeRet, closing, errEvents, owe, everErr, xcall, distExited, cfgSeg, users, hexists>>
+       /\ UNCHANGED <<cfgSem, nAds, pending, asyncH, syncH, semCnt, latest, reported, took, cur, inEv, expect, regFlight, closeRet, closing, errEvents, owe, everErr, xcall, distExited, cfgSeg, users, hexists, oweX>>
 
 (* ---- shutdown (C15): when Close returns nothing is running any more ---- *)
 CloseRet == /\ Is("env.close.ret") /\ ~ErrOf
             /\ \A p \in 1..MaxP : syncH[p] = 0 /\ asyncH[p] = 0
             /\ closeRet' = TRUE
-            /\ UNCHANGED <<cfgSem, nAds, pending, asyncH, syncH, semCnt, latest, reported, took, cur, inEv, dlist, expect, regFlight, rmFlight, errEvents, closing, owe, everErr, xcall, distExited, cfgSeg, users, hexists>>
+            /\ UNCHANGED <<cfgSem, nAds, pending, asyncH, syncH, semCnt, latest, reported, took, cur, inEv, dlist, expect, regFlight, rmFlight, errEvents, closing, owe, everErr, xcall, distExited, cfgSeg, users, hexists, oweX>>
 
 CClosing == /\ Is("c.closing") /\ closing' = TRUE
-            /\ UNCHANGED <<cfgSem, nAds, pending, asyncH, syncH, semCnt, latest, reported, took, cur, inEv, dlist, expect, regFlight, rmFlight, closeRet, errEvents, owe, everErr, xcall, distExited, cfgSeg, users, hexists>>
+            /\ UNCHANGED <<cfgSem, nAds, pending, asyncH, syncH, semCnt, latest, reported, took, cur, inEv, dlist, expect, regFlight, rmFlight, closeRet, errEvents, owe, everErr, xcall, distExited, cfgSeg, users, hexists, oweX>>
 
 (* ---- end-of-run observations ---- *)
 Count(s, x) == Cardinality({i \in 1..Len(s) : s[i] = x})
@@ -173,7 +179,7 @@ FinalLatest ==
         \* a segmented sync that fails has reported its completed segments, and the retry reports them again
         /\ (~everErr \/ cfgSeg = 0) => \A a \in 1..nAds : Count(reported[Ev.p], a) <= 1
   /\ Ev.c = latest[Ev.p]
-  /\ UNCHANGED <<cfgSem, nAds, pending, asyncH, syncH, semCnt, latest, reported, took, cur, inEv, dlist, expect, regFlight, rmFlight, closeRet, closing, errEvents, owe, everErr, xcall, distExited, cfgSeg, users, hexists>>
+  /\ UNCHANGED <<cfgSem, nAds, pending, asyncH, syncH, semCnt, latest, reported, took, cur, inEv, dlist, expect, regFlight, rmFlight, closeRet, closing, errEvents, owe, everErr, xcall, distExited, cfgSeg, users, hexists, oweX>>
 (* C14: every listener got exactly the notifications forwarded while it was registered, in order, and
    its channel was closed afterwards                                                                *)
 QSeq == IF "q" \in DOMAIN Ev THEN Ev.q ELSE <<>>
@@ -181,7 +187,7 @@ FinalListener ==
   /\ Is("final.listener")
   /\ QSeq = expect[Ev.n]
   /\ ~ErrOf
-  /\ UNCHANGED <<cfgSem, nAds, pending, asyncH, syncH, semCnt, latest, reported, took, cur, inEv, dlist, expect, regFlight, rmFlight, closeRet, closing, errEvents, owe, everErr, xcall, distExited, cfgSeg, users, hexists>>
+  /\ UNCHANGED <<cfgSem, nAds, pending, asyncH, syncH, semCnt, latest, reported, took, cur, inEv, dlist, expect, regFlight, rmFlight, closeRet, closing, errEvents, owe, everErr, xcall, distExited, cfgSeg, users, hexists, oweX>>
 
 (* ---- handler lifecycle (C08): a publisher's handler -- its two locks and its pending slot -- stays for as long as anything
    uses it: the watcher between looking it up and handing the message over, the goroutine that is going to take the pending
@@ -190,21 +196,22 @@ FinalListener ==
 Others == <<cfgSem, nAds, pending, asyncH, syncH, semCnt, latest, reported, took, cur, inEv, dlist, expect, regFlight, rmFlight, closeRet, closing, errEvents, owe, everErr, xcall, distExited, cfgSeg>>
 Acquire == /\ (Is("w.recv") \/ Is("e.handler"))
            /\ users' = [users EXCEPT ![Ev.p] = @ + 1] /\ hexists' = [hexists EXCEPT ![Ev.p] = TRUE]
-           /\ UNCHANGED Others
+           /\ UNCHANGED <<Others, oweX>>
 Release == /\ Is("r.release") /\ users[Ev.p] > 0 /\ users' = [users EXCEPT ![Ev.p] = @ - 1]
-           /\ UNCHANGED <<Others, hexists>>
+           /\ UNCHANGED <<Others, hexists, oweX>>
 IdleRemoved == /\ Is("i.removed") /\ hexists[Ev.p]
                /\ users[Ev.p] = 0 /\ asyncH[Ev.p] = 0 /\ syncH[Ev.p] = 0 /\ pending[Ev.p] = 0
                /\ hexists' = [hexists EXCEPT ![Ev.p] = FALSE]
-               /\ UNCHANGED <<Others, users>>
-(* end of run: the handlers that exist (RemoveHandler says so) are those taken and not removed since *)
+               /\ UNCHANGED <<Others, users, oweX>>
+(* end of run: the handlers that exist (RemoveHandler says so) are those taken and not removed since; nothing is in flight *)
 FinalHandlers == /\ Is("final.handlers")
                  /\ {QSeq[i] : i \in 1..Len(QSeq)} = {p \in 1..MaxP : hexists[p]}
                  /\ \A p \in 1..MaxP : users[p] = 0
-                 /\ UNCHANGED <<Others, users, hexists>>
+                 /\ inEv = <<>>            \* C14: every notification that was sent has been taken by the distributor
+                 /\ UNCHANGED <<Others, users, hexists, oweX>>
 
 Next == Reset \/ Skip \/ EnvAnnounce \/ XStart \/ DExit \/ EnvRegRet \/ SwapFirst \/ SwapReplaced \/ GLocked \/ GSem \/ GTook \/ GExit \/ HLocked \/ Hook \/ HUnlock \/ EHead
-        \/ LatestSet \/ Recorded \/ Failed \/ DEvent \/ EnvReg \/ DAdd \/ EnvCancel \/ DRm \/ CloseRet \/ CClosing \/ FinalLatest \/ FinalListener \/ Acquire \/ Release \/ IdleRemoved \/ FinalHandlers
+        \/ LatestSet \/ Recorded \/ Failed \/ DEvent \/ EnvReg \/ DAdd \/ EnvCancel \/ DRm \/ CloseRet \/ CClosing \/ FinalLatest \/ FinalListener \/ Acquire \/ Release \/ IdleRemoved \/ FinalHandlers \/ ESynced \/ XRet
 Spec == Init /\ [][Next]_vars
 
 Accepted == TLCGet("stats").diameter - 1 = Len(Trace)
